@@ -15,7 +15,9 @@ EXPLANATION = (
     "internal exception (attribute access on None, index into an empty or possibly empty list, failing assert, missing "
     "key) on any path; E2: an And/But step that is the first step of its statement (no background steps) is never "
     "accepted with a step type left over from an earlier statement (the catalogued fault is rejected); E3: every exception that leaves is a ParserError; E5: the wrappers attach the filename; "
-    "E4 (structural): every ParserError construction passes the current line; E6: no while loop and no call cycle "
+    "E8: the model constructors and add_* methods the parser calls (Table, add_row, Row, Step, Scenario, ScenarioOutline, "
+    "Examples, Background, Feature, Rule) evaluated with arbitrary strings and cell lists reach no assertion over the text's "
+    "content and no internal exception (the machine itself uses model tokens). E4 (structural): every ParserError construction passes the current line; E6: no while loop and no call cycle "
     "except action_table<->action_steps. A counterexample is an abstract sentence such as 'entry=parse_rule: RULE_KW'.")
 NOT_DECIDED = ("that the error is reported at the injected line for a concrete injected fault (covered only through E4: "
                "the error carries the current line, and C04/P3: lines are counted before anything is skipped); "
@@ -31,6 +33,7 @@ def t_struct(chk, ix):
     rules_parser.check_line_numbers(chk, ix)
     rules_parser.check_termination(chk, ix)
     rules_parser.check_reset_clears(chk, ix)
+    rules_parser.check_model_constructors(chk, ix)
 
 
 def run(chk, ix, tier):
@@ -40,4 +43,5 @@ def run(chk, ix, tier):
     chk.rules.pop("P3", None)
     chk.require_instances("E1", 5)
     chk.require_instances("E2", 4)
+    chk.require_instances("E8", 10)
     chk.require_instances("E4", 8)
